@@ -112,12 +112,58 @@ class LInt:
             raise ValueError("negative shift count")
         return LInt(self.t * (1 << o))
 
+    BITS = 20
+
+    def _bitwise(self, o, f):
+        """bit-by-bit over BITS bits (div / mod by constants stay linear); both operands must be in [0, 2^BITS)"""
+        try:
+            b = it(o)
+        except TypeError:
+            return NotImplemented
+        a = self.t
+        c = _c()
+        nbits = None
+        for k in (8, 9, 12, 16, 17, self.BITS):
+            lim = 1 << k
+            if c.check(z3.Or(a < 0, a >= lim, b < 0, b >= lim)) == z3.unsat:
+                nbits = k
+                break
+        if nbits is None:
+            raise EngineLimit("bitwise operation on integers outside [0, 2^20) on the LIA back end")
+        acc = z3.IntVal(0)
+        for i in range(nbits):
+            ba, bb = (a / (1 << i)) % 2, (b / (1 << i)) % 2
+            acc = acc + (1 << i) * f(ba, bb)
+        return LInt(z3.simplify(acc))
+
     def __and__(self, o):
         if isinstance(o, builtins.int) and o >= 0 and (o & (o + 1)) == 0:
             return LInt(self.t % (o + 1))
-        raise EngineLimit("general bitwise and on the LIA back end")
+        return self._bitwise(o, lambda x, y: z3.If(z3.And(x == 1, y == 1), 1, 0))
 
     __rand__ = __and__
+
+    def __or__(self, o):
+        # common shape `hi << k | lo`: x a multiple of 2^k and 0 <= y < 2^(k+1) -- exact with two div/mod terms
+        try:
+            y = it(o)
+        except TypeError:
+            return NotImplemented
+        c = _c()
+        for x, yy in ((self.t, y), (y, self.t)):
+            for k in (16, 8, 4):
+                m = 1 << k
+                if c.check(z3.Or(x % m != 0, x < 0, yy < 0, yy >= 2 * m)) == z3.unsat:
+                    carry = z3.If(yy >= m, z3.If((x / m) % 2 == 1, 0, m), 0)
+                    return LInt(z3.simplify(x + (yy % m) + carry))
+        return self._bitwise(o, lambda a, b: z3.If(z3.Or(a == 1, b == 1), 1, 0))
+
+    __ror__ = __or__
+
+    def __xor__(self, o):
+        return self._bitwise(o, lambda x, y: z3.If(x != y, 1, 0))
+
+    __rxor__ = __xor__
 
     def __rpow__(self, base):
         return base ** self.__index__()
